@@ -28,14 +28,16 @@ def record_grid(tier):
     rnd = random.Random(int(os.environ.get("VERIF_SEED", "0") or 0))
     times = [0, 1, 999, 1000, 1001, 1503229838908, 1503229838909, 2 ** 31, 2 ** 41 + 7, 253402300799999]
     times += [rnd.randrange(0, 2 ** 41) for _ in range(20 if tier == "quick" else 400)]
-    blobs = [None, b"", b"k", b"x" * 63, b"y" * 64, b"z" * 8192]
+    blobs = [None, b"", b"k", b"x" * 63, b"y" * 64, b"w" * 65, b"q" * 127, b"r" * 128, b"z" * 8192]
     hdrs = [(), (RecordHeader(key=b"hkey", value=b"hval"),), (RecordHeader(key=None, value=None), RecordHeader(key=b"", value=b"v" * 70))]
+    hdrs.append((RecordHeader(key=b"h" * 64, value=b"v" * 64),))
     recs = []
-    i = 0
+    i = j = 0
     for t in times:
-        for k, v in ((None, b"123"), (b"", None), (blobs[i % 6], blobs[(i + 3) % 6])):
-            recs.append(Record(attributes=(i % 256) - 128, timestamp=ts_of(t), offset=10 + i, key=k, value=v, headers=hdrs[i % 3]))
+        for k, v in ((None, b"123"), (b"", None), (blobs[j % len(blobs)], blobs[(j // len(blobs) + j + 3) % len(blobs)])):
+            recs.append(Record(attributes=(i % 256) - 128, timestamp=ts_of(t), offset=10 + i, key=k, value=v, headers=hdrs[i % len(hdrs)]))
             i += 1
+        j += 1
     return recs
 
 
